@@ -35,6 +35,9 @@ import Chrono.Proofs.ScanBoundaryL
 import Chrono.Proofs.C15ArithL
 import Chrono.Proofs.StrftimeBoundL
 import Chrono.Proofs.StrftimeUtf8L
+import Chrono.Proofs.C15Round3L
+import Chrono.Proofs.ScanSlicesL
+import Chrono.Proofs.StrftimeLenientL
 
 namespace Chrono.Props.C15
 open Chrono Chrono.M Chrono.Spec Chrono.Proofs Chrono.Extracted
@@ -242,6 +245,63 @@ theorem delta_ctors_total (secs nanos n unit : Int) (hn0 : 0 ≤ nanos)
 theorem rounding_total (op : Round.Op) (stamp span : Option Int)
     (hspan : ∀ p, span = some p → p ≤ 9223372036854775807) : Round.run op stamp span ≠ .panic :=
   (C17.err_iff op stamp span hspan).2.2.2.1
+
+/-- **rounding at the entry points** (audit 2, MEDIUM-4): the whole calls
+`DurationRound::duration_round / duration_trunc / duration_round_up` of `NaiveDateTime` and of
+`DateTime<FixedOffset>` (`Round.naive_duration` / `Round.zoned_duration`, Model/RoundDT.lean: span guard,
+`timestamp_nanos_opt` of the (wall-clock) reading, the integer part, and the PANICKING operators
+`original + TimeDelta` / `original - TimeDelta`) return normally — `Ok(v)` or `Err(RoundingError)` — on
+EVERY valid value (leap-second representations included) and every valid `TimeDelta`; a returned value
+is valid, a zone-aware one keeps its offset.  From C17 `naive_result` / `zoned_result` (outside a leap
+second) and `naive_result_leap` / `zoned_result_leap` (inside one), by cases on the span guard and on
+the stamp being an `i64`. -/
+theorem rounding_entry_total (op : Round.Op) (dt : NaiveDT) (z : Zoned) (dur : Delta) (hdt : NDTInv dt)
+    (hz : ZInv z) (hd : DInv dur) :
+    (∃ r, Round.naive_duration op dt dur = .ok r ∧ ∀ v, r = .ok v → NDTInv v) ∧
+    (∃ r, Round.zoned_duration op z dur = .ok r ∧ ∀ v, r = .ok v → ZInv v ∧ v.off = z.off) := by
+  have hno : ∀ {α : Type} (e : Round.RoundingError) (P : α → Prop) (v : α),
+      (Round.RRes.err e : Round.RRes α) = .ok v → P v := by
+    intro α e P v h; cases h
+  constructor
+  · by_cases hg : 0 < ns dur ∧ ns dur ≤ 9223372036854775807
+    · by_cases hin : Spec.Round.InI64 (instNs dt)
+      · by_cases hnl : NonLeap dt
+        · obtain ⟨v, hv, hi, _⟩ := (C17.naive_result op dt dur hdt hnl hd).2.2 hg hin
+          exact ⟨_, hv, fun x hx => by injection hx with hx; rw [← hx]; exact hi⟩
+        · obtain ⟨v, hv, hi, _⟩ := (C17.naive_result_leap op dt dur hdt hnl hd).2.2 hg hin
+          exact ⟨_, hv, fun x hx => by injection hx with hx; rw [← hx]; exact hi⟩
+      · by_cases hnl : NonLeap dt
+        · exact ⟨_, (C17.naive_result op dt dur hdt hnl hd).2.1 hg hin, hno _ _⟩
+        · exact ⟨_, (C17.naive_result_leap op dt dur hdt hnl hd).2.1 hg hin, hno _ _⟩
+    · have hg' : ns dur ≤ 0 ∨ 9223372036854775807 < ns dur := by omega
+      by_cases hnl : NonLeap dt
+      · exact ⟨_, (C17.naive_result op dt dur hdt hnl hd).1 hg', hno _ _⟩
+      · exact ⟨_, (C17.naive_result_leap op dt dur hdt hnl hd).1 hg', hno _ _⟩
+  · by_cases hg : 0 < ns dur ∧ ns dur ≤ 9223372036854775807
+    · by_cases hin : Spec.Round.InI64 (wallNs z)
+      · by_cases hnl : NonLeap z.utc
+        · obtain ⟨v, hv, ho, hi, _⟩ := (C17.zoned_result op z dur hz hnl hd).2.2 hg hin
+          exact ⟨_, hv, fun x hx => by injection hx with hx; rw [← hx]; exact ⟨hi, ho⟩⟩
+        · obtain ⟨v, hv, ho, hi, _⟩ := (C17.zoned_result_leap op z dur hz hnl hd).2.2 hg hin
+          exact ⟨_, hv, fun x hx => by injection hx with hx; rw [← hx]; exact ⟨hi, ho⟩⟩
+      · by_cases hnl : NonLeap z.utc
+        · exact ⟨_, (C17.zoned_result op z dur hz hnl hd).2.1 hg hin, hno _ _⟩
+        · exact ⟨_, (C17.zoned_result_leap op z dur hz hnl hd).2.1 hg hin, hno _ _⟩
+    · have hg' : ns dur ≤ 0 ∨ 9223372036854775807 < ns dur := by omega
+      by_cases hnl : NonLeap z.utc
+      · exact ⟨_, (C17.zoned_result op z dur hz hnl hd).1 hg', hno _ _⟩
+      · exact ⟨_, (C17.zoned_result_leap op z dur hz hnl hd).1 hg', hno _ _⟩
+
+/-- non-vacuity (the inputs the operators would panic on if the guards were missing, and a leap second):
+the last instant rounded up by a day is refused by value (`TimestampExceedsLimit`), `MIN_UTC` viewed at
+−00:00:01 likewise, a zero span is `DurationExceedsLimit`, a leap second rounded up crosses midnight -/
+example : NDTInv NaiveDT.MAX ∧ ZInv ⟨NaiveDT.MIN, -1⟩ ∧ DInv ⟨86400, 0⟩ ∧
+    Round.naive_duration .up NaiveDT.MAX ⟨86400, 0⟩ = .ok (.err .TimestampExceedsLimit) ∧
+    Round.zoned_duration .trunc ⟨NaiveDT.MIN, -1⟩ ⟨1, 0⟩ = .ok (.err .TimestampExceedsLimit) ∧
+    Round.naive_duration .trunc NaiveDT.MAX ⟨0, 0⟩ = .ok (.err .DurationExceedsLimit) ∧
+    NDTInv ⟨dateOfYo 2016 366, ⟨86399, 1500000000⟩⟩ ∧
+    Round.naive_duration .up ⟨dateOfYo 2016 366, ⟨86399, 1500000000⟩⟩ ⟨1, 0⟩ =
+      .ok (.ok ⟨dateOfYo 2017 1, ⟨0, 0⟩⟩) := by decide +kernel
 
 /-- iterating the items of ANY format string terminates, in strict and in lenient mode (`l`): each
 `parse_next_item` step consumes at least one byte and queues at most 12 further items, and a step that
@@ -593,5 +653,398 @@ example :
       = some ([195, 169], -3600) ∧
     (comment_2822 [32, 40, 195, 169, 92, 41, 41, 226, 130, 172]).toOption = some [226, 130, 172] := by
   decide
+
+/-! ## round 3: the documented panics of the operators; more entry points collected -/
+
+/-- **the documented panics of the operator impls, and exactly when** (audit 2, LOW-7).  Every operator that
+has a `Res`-valued model with a panic branch (`expect` of its checked form: Model/ArithOps.lean,
+MonthsOps.lean, DeltaOps.lean, ZonedOps.lean), on EVERY valid operand — leap-second representations
+included, no `NonLeap` hypothesis — panics exactly when the result is not representable:
+* `NaiveDateTime ± TimeDelta`: exactly when the checked form says `None`, i.e. exactly when day number +
+  carry days of the time-of-day sum lies outside `[NaiveDate::MIN, NaiveDate::MAX]` (C07
+  `datetime_operators_spec`, C03 `add_with_leap_operand` via `datetime_arith`); for a non-leap operand that
+  is "instant ± ns δ not representable" (C03 `operator_exact(_sub)`; the first conjunct of
+  `documented_panics` is the `+` case of this);
+* `NaiveDateTime ± Days`: exactly when the day is outside the range (C03 `ndt_days_operator_exact`);
+  `NaiveDateTime ± Months`: exactly when the checked form says `None`;
+* `NaiveDate ± TimeDelta`, `NaiveDate ± Days`: exactly when the day that many whole days away is outside
+  the range (C03 `date_operator_exact`); `NaiveDate ± Months`: exactly when the checked form says `None`
+  (target year outside the range: C08 `months_op_spec`);
+* `DateTime<Tz> ± TimeDelta`: exactly when the checked form says `None`, which is exactly when the operator
+  of the UTC value panics — the offset does not enter; `DateTime<Tz> ± Days` for a non-zero count: exactly
+  when the stepped instant is outside `MIN_UTC ..= MAX_UTC` or the stepped wall clock outside the nominal
+  range (C04 `days_operators_spec`; `Days(0)` returns the value); `DateTime<Tz> ± Months`: exactly when the
+  checked form says `None`;
+* `TimeDelta + - *`: exactly when the exact result is out of range; `/`: exactly when the divisor is zero;
+  unary `-` never (C06 `op_add_exact`, `op_sub_exact`, `op_mul_exact`, `op_div_spec`, `neg_abs_exact`).
+Documented-panic operations that have a model but no conjunct here: the panicking `TimeDelta` constructors
+`weeks … milliseconds` (C06 `unit_panicking`), `Add/Sub<core::time::Duration>` (C03 `std_operator_exact`
+family), the deprecated `from_local` / `timestamp*` / `from_timestamp` forms (C02, C04), `Sum` (C06),
+`naive_local`, `to_rfc2822` (in `documented_panics`).  Documented-panic operations with NO model: the
+deprecated calendar constructors (`from_ymd`, `from_yo`, `from_isoywd`, `from_num_days_from_ce`,
+`from_hms*`, `and_hms*`, `FixedOffset::east/west`, `ymd`, `yo`, …: `expect` of the `_opt` form),
+`DelayedFormat::to_string` / `Display` on `Item::Error` (`Format.*` models return the `fmt::Error` by value,
+the `ToString` panic on it is not modelled), `DateTime<Local>` operators. -/
+theorem documented_panics_ops (dt : NaiveDT) (δ : Delta) (d : Date) (z : Zoned) (a b : Delta) (k c : Int)
+    (n : Nat) (hdt : NDTInv dt) (hδ : DInv δ) (hd : DateInv d) (hz : ZInv z) (ha : DInv a) (hb : DInv b)
+    (hk : -2147483648 ≤ k ∧ k ≤ 2147483647) (hc : 0 ≤ c ∧ c ≤ 18446744073709551615) :
+    ((NaiveDT.add dt δ = .panic ↔ NaiveDT.checked_add_signed dt δ = .ok none) ∧
+     (NaiveDT.add dt δ = .panic ↔
+        ¬ (DN_MIN ≤ dayNumOf dt.date + (addLeap dt.time (ns δ)).2 / 86400 ∧
+           dayNumOf dt.date + (addLeap dt.time (ns δ)).2 / 86400 ≤ DN_MAX)) ∧
+     (NaiveDT.sub dt δ = .panic ↔ NaiveDT.checked_sub_signed dt δ = .ok none) ∧
+     (NaiveDT.sub dt δ = .panic ↔
+        ¬ (DN_MIN ≤ dayNumOf dt.date + (addLeap dt.time (-(ns δ))).2 / 86400 ∧
+           dayNumOf dt.date + (addLeap dt.time (-(ns δ))).2 / 86400 ≤ DN_MAX)) ∧
+     (NonLeap dt → (NaiveDT.add dt δ = .panic ↔
+        ¬ (NS_MIN ≤ instNs dt + ns δ ∧ instNs dt + ns δ ≤ NS_MAX_DT))) ∧
+     (NonLeap dt → (NaiveDT.sub dt δ = .panic ↔
+        ¬ (NS_MIN ≤ instNs dt + -(ns δ) ∧ instNs dt + -(ns δ) ≤ NS_MAX_DT))) ∧
+     (NaiveDT.add_days_op dt c = .panic ↔ ¬ (DN_MIN ≤ dayNumOf dt.date + c ∧ dayNumOf dt.date + c ≤ DN_MAX)) ∧
+     (NaiveDT.sub_days_op dt c = .panic ↔ ¬ (DN_MIN ≤ dayNumOf dt.date + -c ∧ dayNumOf dt.date + -c ≤ DN_MAX)) ∧
+     (NaiveDT.add_months_op dt n = .panic ↔ NaiveDT.checked_add_months dt n = .ok none) ∧
+     (NaiveDT.sub_months_op dt n = .panic ↔ NaiveDT.checked_sub_months dt n = .ok none)) ∧
+    ((Date.add d δ = .panic ↔
+        ¬ (DN_MIN ≤ dayNumOf d + wholeDays (ns δ) ∧ dayNumOf d + wholeDays (ns δ) ≤ DN_MAX)) ∧
+     (Date.sub d δ = .panic ↔
+        ¬ (DN_MIN ≤ dayNumOf d + -(wholeDays (ns δ)) ∧ dayNumOf d + -(wholeDays (ns δ)) ≤ DN_MAX)) ∧
+     (Date.add_days_op d c = .panic ↔ ¬ (DN_MIN ≤ dayNumOf d + c ∧ dayNumOf d + c ≤ DN_MAX)) ∧
+     (Date.sub_days_op d c = .panic ↔ ¬ (DN_MIN ≤ dayNumOf d + -c ∧ dayNumOf d + -c ≤ DN_MAX)) ∧
+     (Date.add_months_op d n = .panic ↔ Date.checked_add_months d n = .ok none) ∧
+     (Date.sub_months_op d n = .panic ↔ Date.checked_sub_months d n = .ok none)) ∧
+    ((Zoned.add z δ = .panic ↔ Zoned.checked_add_signed z δ = .ok none) ∧
+     (Zoned.add z δ = .panic ↔ NaiveDT.add z.utc δ = .panic) ∧
+     (Zoned.sub z δ = .panic ↔ Zoned.checked_sub_signed z δ = .ok none) ∧
+     (Zoned.sub z δ = .panic ↔ NaiveDT.sub z.utc δ = .panic) ∧
+     (0 < c → (Zoned.add_days_op z c = .panic ↔
+        ¬ (InUtcRange (instSecs z.utc + c * 86400) z.utc.time.frac ∧ InRangeSecs (wallSecs z + c * 86400)))) ∧
+     (0 < c → (Zoned.sub_days_op z c = .panic ↔
+        ¬ (InUtcRange (instSecs z.utc - c * 86400) z.utc.time.frac ∧ InRangeSecs (wallSecs z - c * 86400)))) ∧
+     (Zoned.add_months_op z n = .panic ↔ Zoned.checked_add_months z n = .ok none) ∧
+     (Zoned.sub_months_op z n = .panic ↔ Zoned.checked_sub_months z n = .ok none)) ∧
+    ((Delta.add a b = .panic ↔ ¬ nsInRange (ns a + ns b)) ∧
+     (Delta.sub a b = .panic ↔ ¬ nsInRange (ns a - ns b)) ∧
+     (Delta.mul a k = .panic ↔ ¬ nsInRange (ns a * k)) ∧
+     (Delta.div a k = .panic ↔ k = 0) ∧ Delta.neg a ≠ .panic) := by
+  obtain ⟨ar1, ar2⟩ := datetime_arith dt δ hdt hδ
+  obtain ⟨⟨c1, _⟩, ⟨c2, _⟩⟩ := C07.datetime_operators_spec dt δ hdt hδ
+  obtain ⟨nd1, nd2, nd3, nd4⟩ := C03.ndt_days_operator_exact dt c hdt hc
+  obtain ⟨nm1, nm2, _⟩ := C15Round3.naive_ops dt hdt 0 n 0 0 0 (by omega) (by omega)
+  obtain ⟨⟨da1, da2⟩, ⟨ds1, ds2⟩, ⟨dd1, dd2⟩, ⟨de1, de2⟩⟩ := C03.date_operator_exact d δ c hd hδ hc
+  obtain ⟨_, _, dm1, dm2, _⟩ := date_ops d hd n 0 0 0 ⟨0, 0⟩ 0 (by omega) (by decide) (by omega)
+  obtain ⟨zs1, zs2⟩ := C15Round3.zoned_signed_okAnd z δ hz hδ
+  obtain ⟨zp1, zp2⟩ := C15Round3.zoned_add_panic_iff z δ
+  obtain ⟨_, _, zdays⟩ := C04.days_operators_spec z hz
+  obtain ⟨_, _, _, _, _, _, _, _, _, _, _, ⟨zm1, hzm1, _⟩, ⟨zm2, hzm2, _⟩, _⟩ :=
+    zoned_ops_total z hz 0 n 0 0 (by omega) ⟨0, 0⟩ (by decide) 0 (by omega)
+  refine ⟨⟨?_, ?_, ?_, ?_, ?_, ?_, ?_, ?_, ?_, ?_⟩, ⟨?_, ?_, ?_, ?_, ?_, ?_⟩, ⟨?_, zp1, ?_, zp2, ?_, ?_, ?_, ?_⟩,
+    ⟨?_, ?_, ?_, ?_, ?_⟩⟩
+  · exact C15Round3.expectSome_panic_iff _ (C15Round3.okAnd_ex ar1)
+  · rw [c1]; omega
+  · exact C15Round3.expectSome_panic_iff _ (C15Round3.okAnd_ex ar2)
+  · rw [c2]; omega
+  · intro hnl
+    obtain ⟨p, q⟩ := C03.operator_exact dt δ hdt hnl hδ
+    exact C15Round3.panic_iff_of_exact p q
+  · intro hnl
+    obtain ⟨p, q⟩ := C03.operator_exact_sub dt δ hdt hnl hδ
+    exact C15Round3.panic_iff_of_exact p q
+  · exact C15Round3.panic_iff_of_exact nd1 nd2
+  · exact C15Round3.panic_iff_of_exact nd3 nd4
+  · exact C15Round3.expectSome_panic_iff _ (C15Round3.okAnd_ex nm1)
+  · exact C15Round3.expectSome_panic_iff _ (C15Round3.okAnd_ex nm2)
+  · exact C15Round3.panic_iff_of_exact da1 da2
+  · exact C15Round3.panic_iff_of_exact ds1 ds2
+  · exact C15Round3.panic_iff_of_exact dd1 dd2
+  · exact C15Round3.panic_iff_of_exact de1 de2
+  · exact C15Round3.expectSome_panic_iff _ (C15Round3.okAnd_ex dm1)
+  · exact C15Round3.expectSome_panic_iff _ (C15Round3.okAnd_ex dm2)
+  · exact C15Round3.expectSome_panic_iff _ (C15Round3.okAnd_ex zs1)
+  · exact C15Round3.expectSome_panic_iff _ (C15Round3.okAnd_ex zs2)
+  · intro h0; exact (zdays c h0 hc.2).1
+  · intro h0; exact (zdays c h0 hc.2).2.2.1
+  · exact C15Round3.expectSome_panic_iff _ ⟨zm1, hzm1⟩
+  · exact C15Round3.expectSome_panic_iff _ ⟨zm2, hzm2⟩
+  · exact C15Round3.ite_panic_iff (C06.op_add_exact a b ha hb).1
+  · exact C15Round3.ite_panic_iff (C06.op_sub_exact a b ha hb).1
+  · exact C15Round3.ite_panic_iff (C06.op_mul_exact a k ha hk)
+  · obtain ⟨q1, q2⟩ := C06.op_div_spec a k ha hk
+    constructor
+    · intro hp
+      by_cases hk0 : k = 0
+      · exact hk0
+      · obtain ⟨r, hr, _⟩ := q2 hk0; rw [hr] at hp; cases hp
+    · exact q1
+  · rw [(C06.neg_abs_exact a ha).1]; intro h; cases h
+
+/-- non-vacuity: each family at a range end, on a leap-second operand where there is one -/
+example : NDTInv ⟨Date.MAX, ⟨86399, 1500000000⟩⟩ ∧
+    NaiveDT.add ⟨Date.MAX, ⟨86399, 1500000000⟩⟩ ⟨0, 500000000⟩ = .panic ∧
+    NaiveDT.checked_add_signed ⟨Date.MAX, ⟨86399, 1500000000⟩⟩ ⟨0, 500000000⟩ = .ok none ∧
+    NaiveDT.sub ⟨Date.MIN, ⟨0, 1000000000⟩⟩ ⟨1, 1⟩ = .panic ∧
+    NaiveDT.add_months_op NaiveDT.MAX 1 = .panic ∧ NaiveDT.sub_days_op NaiveDT.MIN 1 = .panic ∧
+    Date.add Date.MAX ⟨86400, 0⟩ = .panic ∧ Date.sub_months_op Date.MIN 1 = .panic ∧
+    ZInv ⟨⟨Date.MAX, ⟨86399, 1500000000⟩⟩, 3600⟩ ∧
+    Zoned.add ⟨⟨Date.MAX, ⟨86399, 1500000000⟩⟩, 3600⟩ ⟨0, 500000000⟩ = .panic ∧
+    Zoned.add_days_op ⟨NaiveDT.MAX, 3600⟩ 1 = .panic ∧ Zoned.add_months_op ⟨NaiveDT.MAX, 3600⟩ 1 = .panic ∧
+    Delta.add Delta.MAX ⟨0, 1⟩ = .panic ∧ Delta.mul Delta.MAX 2 = .panic ∧ Delta.div Delta.MAX 0 = .panic ∧
+    Delta.neg Delta.MIN = .ok Delta.MAX := by decide +kernel
+
+/-- **collected_total** (audit 2, MEDIUM-6): the fallible entry points that had a theorem in another property
+but no statement here.  On every valid value and every argument of the machine domain the call returns
+normally and a returned value satisfies the representation invariant of its type:
+`NaiveDateTime::checked_add/sub_months` (every `u32`), `checked_add/sub_days` (every `u64`), the eleven
+`NaiveDateTime::with_*` (arguments of any size) — the date-level / time-level operation on one part with
+the other kept (C08 `naive_datetime_delegates`, C03 `ndt_days_exact`) —, `checked_add/sub_offset` (every
+offset a `FixedOffset` holds; `ZonedL.shiftChecked_spec`, the engine of C04 `fromLocal_fails_iff`),
+`from_timestamp_millis / _micros / _nanos` (every `i64`; C02 `from_millis_floor`, `from_micros_floor`,
+`from_nanos_exact`), `FixedOffset::east_opt / west_opt` (every integer; `Option`-valued models; C04
+`east_opt_iff`), `NaiveDate::from_weekday_of_month_opt` (every year, month, weekday, `n`; C08
+`nth_weekday_spec`), `TimeDelta::abs` with its result invariant (C06 `neg_abs_exact`), and
+`DateTime::checked_add/sub_signed` (result well formed, offset kept; from `datetime_arith_total`). -/
+theorem collected_total (dt : NaiveDT) (hdt : NDTInv dt) (v k : Nat) (y' w c off x s : Int) (hw : 0 ≤ w)
+    (hc : 0 ≤ c ∧ c ≤ 18446744073709551615) (ho : OffValid off) (hx : Spec.Ts.isI64 x)
+    (y : Int) (m : Nat) (wd : Weekday) (n : Nat) (a δ : Delta) (ha : DInv a) (hδ : DInv δ)
+    (z : Zoned) (hz : ZInv z) :
+    (OkAnd (dt.checked_add_months k) NDTInv ∧ OkAnd (dt.checked_sub_months k) NDTInv ∧
+     OkAnd (NaiveDT.checked_add_days dt c) NDTInv ∧ OkAnd (NaiveDT.checked_sub_days dt c) NDTInv ∧
+     OkAnd (dt.with_year y') NDTInv ∧ OkAnd (dt.with_month v) NDTInv ∧ OkAnd (dt.with_month0 v) NDTInv ∧
+     OkAnd (dt.with_day v) NDTInv ∧ OkAnd (dt.with_day0 v) NDTInv ∧ OkAnd (dt.with_ordinal v) NDTInv ∧
+     OkAnd (dt.with_ordinal0 v) NDTInv ∧
+     OkAnd (dt.with_hour w) NDTInv ∧ OkAnd (dt.with_minute w) NDTInv ∧ OkAnd (dt.with_second w) NDTInv ∧
+     OkAnd (dt.with_nanosecond w) NDTInv) ∧
+    (OkAnd (dt.checked_add_offset off) NDTInv ∧ OkAnd (dt.checked_sub_offset off) NDTInv) ∧
+    (OkAnd (NaiveDT.from_timestamp_millis x) NDTInv ∧ OkAnd (NaiveDT.from_timestamp_micros x) NDTInv ∧
+     ∃ r, NaiveDT.from_timestamp_nanos x = .ok r ∧ NDTInv r) ∧
+    ((∀ o, Zoned.east_opt s = some o → OffValid o) ∧ (∀ o, Zoned.west_opt s = some o → OffValid o)) ∧
+    OkAnd (Date.from_weekday_of_month_opt y m wd n) DateInv ∧
+    (∃ r, Delta.abs a = .ok r ∧ DInv r) ∧
+    (OkAnd (Zoned.checked_add_signed z δ) (fun r => ZInv r ∧ r.off = z.off) ∧
+     OkAnd (Zoned.checked_sub_signed z δ) (fun r => ZInv r ∧ r.off = z.off)) := by
+  refine ⟨C15Round3.naive_ops dt hdt v k y' w c hw hc, C15Round3.offset_ops dt off hdt ho, ⟨?_, ?_, ?_⟩,
+    ⟨(C04.east_opt_iff s).2.2.1, (C04.east_opt_iff s).2.2.2⟩, ?_, ?_, C15Round3.zoned_signed_okAnd z δ hz hδ⟩
+  · obtain ⟨r, h1, _, h3⟩ := C02.from_millis_floor x hx
+    exact ⟨r, h1, fun q hq => (h3 q hq).1⟩
+  · obtain ⟨r, h1, _, h3⟩ := C02.from_micros_floor x hx
+    exact ⟨r, h1, fun q hq => (h3 q hq).1⟩
+  · obtain ⟨r, h1, h2, _⟩ := C02.from_nanos_exact x hx
+    exact ⟨r, h1, h2⟩
+  · refine ⟨_, (C08.nth_weekday_spec y m wd n).1, fun q hq => ?_⟩
+    by_cases hn : n = 0
+    · rw [if_pos hn] at hq; cases hq
+    · rw [if_neg hn] at hq; exact ymdDate_inv _ _ _ q hq
+  · refine ⟨_, (C06.neg_abs_exact a ha).2, ?_⟩
+    have hr : nsInRange (if ns a < 0 then -(ns a) else ns a) := by
+      have := ha.2.2; unfold nsInRange at *; omega
+    exact (C06.ofNs_spec _ hr).1
+
+/-- non-vacuity at the range ends and the integer extremes: refusals by value, and values -/
+example : NDTInv NaiveDT.MAX ∧ NDTInv NaiveDT.MIN ∧ OffValid 86399 ∧ Spec.Ts.isI64 (-9223372036854775808) ∧
+    NaiveDT.checked_add_months NaiveDT.MAX 4294967295 = .ok none ∧
+    NaiveDT.checked_sub_days NaiveDT.MAX 18446744073709551615 = .ok none ∧
+    NaiveDT.with_ordinal0 NaiveDT.MAX 4294967295 = .ok none ∧
+    NaiveDT.checked_add_offset NaiveDT.MAX 86399 = .ok none ∧
+    NaiveDT.checked_sub_offset NaiveDT.MIN 86399 = .ok none ∧
+    NaiveDT.from_timestamp_millis (-9223372036854775808) = .ok none ∧
+    (NaiveDT.from_timestamp_nanos (-9223372036854775808)).isOk = true ∧
+    Zoned.east_opt 86400 = none ∧ Zoned.west_opt (-86399) = some 86399 ∧
+    Date.from_weekday_of_month_opt 262142 12 .sun 6 = .ok none ∧
+    (Date.from_weekday_of_month_opt 262142 12 .sun 5).isOk = true ∧
+    Date.from_weekday_of_month_opt 2147483647 4294967295 .mon 255 = .ok none ∧
+    Delta.abs Delta.MIN = .ok Delta.MAX ∧
+    Zoned.checked_add_signed ⟨NaiveDT.MAX, 3600⟩ ⟨0, 1⟩ = .ok none := by decide +kernel
+
+/-! ## byte level, second review gap 2: EVERY `&str` slice site, failing paths included
+
+`scan_prim_boundary` / `parser_slices_at_boundaries` above constrain only the suffix a scanner RETURNS on
+its `Ok` path.  The theorems below are about the slice-recording copies of Model/Rfc3339Slices.lean (C10)
+and Model/ScanSlices.lean: the same computations, recording every `&str` index expression `&src[k..]`
+the Rust code evaluates, in statement order, also when the run fails afterwards (a slice taken before a
+comparison, before a failing `scan::number`, before a failing setter).  `Spec.StrSlice.sliceFrom` is the
+`Res`-valued `&s[k..]` (`.panic` unless `k ≤ len` and `is_char_boundary(k)`); `evalSlices` replays a
+recorded run: `.panic` iff one of its index expressions panics. -/
+
+open Chrono.M.Tz Chrono.Spec.Utf8 Chrono.M.Scan Chrono.M.Rfc3339Slices Chrono.M.ScanSlices Chrono.Spec.StrSlice in
+/-- **scanners_never_panic** (scan.rs).  For every scanner of src/format/scan.rs that slices its `&str`
+argument — `number`, `nanosecond`, `nanosecond_fixed`, `char`, `short_month0`, `short_weekday`,
+`short_or_long_month0`, `short_or_long_weekday`, `timezone_offset` (every colon mode and flag combination),
+`timezone_offset_2822`, `comment_2822` (`space`, `colon_or_space` only call std's `trim_start*`) — on EVERY
+well-formed UTF-8 argument: the recording copy returns exactly what the plain model returns (`Ok` or `Err`),
+and replaying its slice record never panics — whether the scanner ends in `Ok` or in `Err`.  `number` is
+called with `min ≤ max` (asserted in the Rust code), `char` with an ASCII byte. -/
+theorem scanners_never_panic (s : List Nat) (hv : validUtf8 s = true) (k : Nat) (mx : Option Nat)
+    (hk : ∀ m, mx = some m → k ≤ m) (c : Nat) (hc : c < 128) (cm : ColonMode) (z mm ms : Bool) :
+    evalSlices (numberT s k mx) = .ok (number s k mx) ∧
+    evalSlices (nanosecondT s) = .ok (nanosecond s) ∧
+    evalSlices (nanosecond_fixedT s k) = .ok (nanosecond_fixed s k) ∧
+    evalSlices (charT s c) = .ok (Scan.char s c) ∧
+    evalSlices (short_month0T s) = .ok ((short_month0 s).mapError convE) ∧
+    evalSlices (short_weekdayT s) = .ok ((short_weekday s).mapError convE) ∧
+    evalSlices (short_or_long_month0T s) = .ok ((short_or_long_month0 s).mapError convE) ∧
+    evalSlices (short_or_long_weekdayT s) = .ok ((short_or_long_weekday s).mapError convE) ∧
+    evalSlices (timezone_offsetT s cm z mm ms) = .ok (timezone_offset s cm z mm ms) ∧
+    evalSlices (timezone_offset_2822T s) = .ok (timezone_offset_2822 s) ∧
+    evalSlices (comment_2822T s) = .ok (comment_2822 s) := by
+  refine ⟨?_, ?_, ?_, ?_, ?_, ?_, ?_, ?_, ?_, ?_, ?_⟩
+  · rw [ScanSlices.eval_of_good _ _ (Rfc3339Slices.numberT_good s k mx hv hk), Rfc3339Slices.numberT_fst]
+  · rw [ScanSlices.eval_of_good _ _ (Rfc3339Slices.nanosecondT_good s hv), Rfc3339Slices.nanosecondT_fst]
+  · rw [ScanSlices.eval_of_good _ _ (ScanSlices.nanosecond_fixedT_good s k hv), ScanSlices.nanosecond_fixedT_fst]
+  · rw [ScanSlices.eval_of_good _ _ (Rfc3339Slices.charT_good s c hc hv), Rfc3339Slices.charT_fst]
+  · rw [ScanSlices.eval_of_good _ _ (ScanSlices.short_month0T_good s hv), ScanSlices.short_month0T_fst]
+  · rw [ScanSlices.eval_of_good _ _ (ScanSlices.short_weekdayT_good s hv), ScanSlices.short_weekdayT_fst]
+  · rw [ScanSlices.eval_of_good _ _ (ScanSlices.short_or_long_month0T_good s hv),
+      ScanSlices.short_or_long_month0T_fst]
+  · rw [ScanSlices.eval_of_good _ _ (ScanSlices.short_or_long_weekdayT_good s hv),
+      ScanSlices.short_or_long_weekdayT_fst]
+  · rw [ScanSlices.eval_of_good _ _ (Rfc3339Slices.timezone_offsetT_good s cm z mm ms hv),
+      Rfc3339Slices.timezone_offsetT_fst]
+  · rw [ScanSlices.eval_of_good _ _ (ScanSlices.timezone_offset_2822T_good s hv),
+      ScanSlices.timezone_offset_2822T_fst]
+  · rw [ScanSlices.eval_of_good _ _ (ScanSlices.comment_2822T_good s hv), ScanSlices.comment_2822T_fst]
+
+open Chrono.M.Tz Chrono.Spec.Utf8 Chrono.M.Parse Chrono.M.Rfc3339Slices Chrono.M.ScanSlices Chrono.Spec.StrSlice in
+/-- **parser_never_panics** (parse.rs).  `parse_internal` for ANY item list whose literals are `&str`s, on
+ANY `&str` text and any record — with its `&s[prefix.len()..]` (:312/:323), `&s[1..]` after a sign (:369,
+:372, taken before `scan::number` runs), `&s[2..]` after AM/PM (:417), `&s[1..]` after `.` (:422) — and
+`parse_rfc2822` (`&s_[1..]` after `,` :106), `parse_rfc3339` (:199, :210), `parse_rfc3339_relaxed` (:570,
+:578): the recording copy returns exactly what the plain model returns, and replaying its slice record
+never panics, ALSO ON RUNS ENDING IN `Err`; every recorded slice was taken of a well-formed string after
+whole characters. -/
+theorem parser_never_panics (p : Parsed) (s : List Nat) (hv : validUtf8 s = true) (items : List Item)
+    (hi : ScanBoundary.ItemsUtf8 items) :
+    evalSlices (parse_internalT p s items) = .ok (parse_internal p s items) ∧
+    evalSlices (parse_rfc2822T p s) = .ok (parse_rfc2822 p s) ∧
+    evalSlices (parse_rfc3339T p s) = .ok (parse_rfc3339 p s) ∧
+    evalSlices (parse_rfc3339_relaxedT p s) = .ok (parse_rfc3339_relaxed p s) ∧
+    (∀ e ∈ (parse_internalT p s items).2, validUtf8 e.src = true ∧ BoundarySuffix e.src e.rest ∧
+      StrSlice.sliceFrom e.src e.k = .ok e.rest) := by
+  have g := ScanSlices.parse_internalT_good items p s hv hi
+  refine ⟨?_, ?_, ?_, ?_, ?_⟩
+  · rw [ScanSlices.eval_of_good _ _ g, ScanSlices.parse_internalT_fst]
+  · rw [ScanSlices.eval_of_good _ _ (ScanSlices.parse_rfc2822T_good p s hv), ScanSlices.parse_rfc2822T_fst]
+  · rw [ScanSlices.eval_of_good _ _ (Rfc3339Slices.parse_rfc3339T_good p s hv), Rfc3339Slices.parse_rfc3339T_fst]
+  · rw [ScanSlices.eval_of_good _ _ (ScanSlices.parse_rfc3339_relaxedT_good p s hv),
+      ScanSlices.parse_rfc3339_relaxedT_fst]
+  · intro e he
+    have ge := g.1 e he
+    refine ⟨ge.1, ge.2, ?_⟩
+    have := ScanSlices.good_sliceOk e ge
+    unfold sliceOk at this
+    exact eq_of_beq this
+
+open Chrono.M.Tz Chrono.M.Scan Chrono.M.Parse Chrono.M.Rfc3339Slices Chrono.M.ScanSlices Chrono.Spec.StrSlice in
+/-- non-vacuity, multi-byte characters where it matters, failing runs included: `"Junéx"` through
+`short_or_long_month0` (one slice, at 3; the suffix `e` does not match `é`'s lead byte, no second slice);
+`"ABé"` through `timezone_offset_2822` (`&s[2..]` is recorded although the name lookup then fails with
+`Invalid`); the items `Literal("é"), ShortMonthName` on `"éJu"` (the literal's `&s[2..]` is recorded, then
+`TooShort`); and `evalSlices` does report a panic for a record with an off-boundary slice. -/
+example :
+    validUtf8 [74, 117, 110, 195, 169, 120] = true ∧
+    short_or_long_month0T [74, 117, 110, 195, 169, 120] =
+      (.ok ([195, 169, 120], 5), [⟨[74, 117, 110, 195, 169, 120], [195, 169, 120]⟩]) ∧
+    timezone_offset_2822T [65, 66, 195, 169] = (.error .invalid, [⟨[65, 66, 195, 169], [195, 169]⟩]) ∧
+    parse_internalT Parsed.new [195, 169, 74, 117] [.literal [195, 169], .fixed .shortMonthName] =
+      (.error .tooShort, [⟨[195, 169, 74, 117], [74, 117]⟩]) ∧
+    evalSlices ((.ok (), [⟨[195, 169, 120], [169, 120]⟩]) : T Unit) = .panic := by
+  refine ⟨by decide, by decide +kernel, by decide +kernel, by decide +kernel, by decide⟩
+
+open Chrono.M.Tz Chrono.Spec.Utf8 Chrono.Spec.StrSlice in
+/-- **seed R4-C15-b, the distinction.**  The suffix test of `short_or_long_month0` / `short_or_long_weekday`
+(scan.rs:137, :155) reads `s.as_bytes()[..suffix.len()]`: a BYTE slice, which panics only for an index
+beyond the length (`bytesTo`) — excluded by the guard `s.len() >= suffix.len()` — and the `&str` slice
+`&s[suffix.len()..]` is taken only after the ASCII comparison succeeded.  So the lines as they are
+(`eatSuffixAsIs`) never panic, for ANY `&str` and any ASCII suffix, and compute the model's `eatSuffix`.
+The seed replaces the byte slice by the `&str` prefix slice `s[..suffix.len()]` (`sliceTo`, needs a char
+boundary, evaluated BEFORE the comparison): `eatSuffixSeeded` panics on `"éx"` with suffix `"e"`, i.e.
+`short_or_long_month0("Junéx")` — an input on which the plain model, the returned-suffix theorems and the
+function's result (`Ok(("éx", 5))`) are all unremarkable. -/
+theorem seed_R4_C15_b_distinction :
+    (∀ s k, k ≤ s.length → bytesTo s k = .ok (s.take k)) ∧
+    (∀ s suffix, validUtf8 s = true → (∀ b ∈ suffix, b < 128) →
+      eatSuffixAsIs s suffix = .ok (eatSuffix s suffix)) ∧
+    (validUtf8 [195, 169, 120] = true ∧ bytesTo [195, 169, 120] 1 = .ok [195] ∧
+      sliceTo [195, 169, 120] 1 = .panic ∧ eatSuffixSeeded [195, 169, 120] [101] = .panic ∧
+      eatSuffixAsIs [195, 169, 120] [101] = .ok [195, 169, 120]) := by
+  refine ⟨fun s k h => by unfold bytesTo; rw [if_pos h], ?_, by decide⟩
+  intro s suffix hv hs
+  have hb := ScanBoundary.eatSuffix_bs s suffix hs
+  unfold eatSuffixAsIs bytesTo
+  unfold eatSuffix at hb ⊢
+  by_cases hl : s.length ≥ suffix.length
+  · rw [if_pos hl, if_pos hl]
+    dsimp only
+    by_cases hc : lowerS (s.take suffix.length) = lowerS suffix
+    · rw [if_pos hc, if_pos ⟨hl, hc⟩]
+      rw [if_pos ⟨hl, hc⟩] at hb
+      obtain ⟨h1, h2, h3, _⟩ := Utf8.bs_boundary hv hb
+      have hk : s.length - (s.drop suffix.length).length = suffix.length := by
+        rw [List.length_drop]; omega
+      rw [hk] at h3
+      unfold StrSlice.sliceFrom
+      rw [if_pos ⟨hl, h3⟩]
+    · rw [if_neg hc, if_neg (fun h => hc h.2)]
+  · rw [if_neg hl, if_neg (fun h => hl h.1)]
+
+/-! ## lenient `StrftimeItems`: the `error_len` arithmetic and the slices of `StrftimeItems::error` -/
+
+open Chrono.M.Tz Chrono.Spec.Utf8 in
+/-- **lenient_error_len_ok** (audit2/C15.md MEDIUM-3, arithmetic + slices inside `StrftimeItems::error`).
+`Strftime.parse_next_itemR` (Model/StrftimeLenient.lean) is `parse_next_item` with `error` replaced by
+`errorR`: `*error_len -= c.len_utf8()` is a checked subtraction and `&original[*error_len..]`,
+`&original[..*error_len]` (strict mode: `&original[original.len()..]`) panic unless the index is
+`≤ original.len()` and on a char boundary.  On every well-formed UTF-8 format string, in lenient and in
+strict mode, no call site of `error` panics, for one call and for the whole drained iterator; and `errorR`
+is `.ok` exactly when the subtraction does not underflow and the index is a legal slice index.
+(The `usize` additions `error_len += …` are not modelled as checked: they are bounded by the string length.) -/
+theorem lenient_error_len_ok (s : List Nat) (hv : validUtf8 s = true) :
+    (∀ l, Strftime.parse_next_itemR l s = .ok (Strftime.parse_next_item l s)) ∧
+    Strftime.itemsLenientR s = .ok (Strftime.itemsLenient s) ∧
+    Strftime.itemsR s = .ok (Strftime.items s) ∧
+    (∀ el ch, Strftime.errorR true s el ch = .ok (Strftime.error true s el ch) ↔
+      (ch.getD 0 ≤ el ∧ el - ch.getD 0 ≤ s.length ∧ isCharBoundary s (el - ch.getD 0) = true)) :=
+  ⟨fun l => StrftimeLenient.parse_next_itemR_ok l s hv, StrftimeLenient.itemsLenientR_ok s hv,
+   StrftimeLenient.itemsR_ok s hv, fun el ch => StrftimeLenient.errorR_ok_iff s el ch⟩
+
+open Chrono.M.Tz in
+/-- non-vacuity: "%é", "%-é", "%:é", "%.3é", "%#é", "%" in lenient mode: the literal ends before the
+offending character; the checks of `errorR` are real (underflow, index inside `é`, index past the end);
+without `validUtf8` the lenient `error` does slice inside a character (`%:` + stray continuation byte) -/
+example :
+    Strftime.parse_next_itemR true [37, 195, 169] = .ok (some ([195, 169], .literal [37], [])) ∧
+    Strftime.parse_next_itemR true [37, 45, 195, 169] = .ok (some ([195, 169], .literal [37, 45], [])) ∧
+    Strftime.parse_next_itemR true [37, 58, 195, 169] = .ok (some ([195, 169], .literal [37, 58], [])) ∧
+    Strftime.parse_next_itemR true [37, 46, 51, 195, 169] = .ok (some ([195, 169], .literal [37, 46, 51], [])) ∧
+    Strftime.parse_next_itemR true [37, 35, 195, 169] = .ok (some ([195, 169], .literal [37, 35], [])) ∧
+    Strftime.parse_next_itemR true [37] = .ok (some ([], .literal [37], [])) ∧
+    Strftime.errorR true [37, 195, 169] 2 (some 3) = .panic ∧
+    Strftime.errorR true [37, 195, 169] 2 none = .panic ∧
+    Strftime.errorR true [37, 195, 169] 4 none = .panic ∧
+    (validUtf8 [37, 58, 169] = false ∧ Strftime.parse_next_itemR true [37, 58, 169] = .panic) :=
+  ⟨by decide, by decide, by decide, by decide, by decide, by decide, by decide, by decide, by decide, by decide⟩
+
+open Chrono.M.Tz Chrono.Spec.Utf8 in
+/-- **lenient_slices** (audit2/C15.md MEDIUM-3).  One `parse_next_item` call of
+`StrftimeItems::new_lenient(fmt)` on a well-formed UTF-8 remainder: the new remainder starts after whole
+characters (`&original[*error_len..]` included), the literal cut out (`&original[..*error_len]`, or a
+text run) is well-formed UTF-8, and so are the queued literals. -/
+theorem lenient_slices (s : List Nat) (hv : validUtf8 s = true) :
+    ∀ r, Strftime.parse_next_item true s = some r →
+      BoundarySuffix s r.1 ∧ (∀ lit, r.2.1 = .literal lit → validUtf8 lit = true) ∧
+      ScanBoundary.ItemsUtf8 r.2.2 :=
+  StrftimeLenient.lenient_slices s hv
+
+open Chrono.M.Tz in
+/-- **lenient_items_utf8.**  Every `Item::Literal` of `StrftimeItems::new_lenient(fmt)` is a `&str`. -/
+theorem lenient_items_utf8 (s : List Nat) (hv : validUtf8 s = true) :
+    ScanBoundary.ItemsUtf8 (Strftime.itemsLenient s) :=
+  StrftimeLenient.lenient_items_utf8 s hv
+
+open Chrono.M.Tz in
+/-- non-vacuity: "%.3é%-é%" is well formed and lenient mode turns all three bad specifiers into literals -/
+example : validUtf8 [37, 46, 51, 195, 169, 37, 45, 195, 169, 37] = true ∧
+    Strftime.itemsLenient [37, 46, 51, 195, 169, 37, 45, 195, 169, 37] =
+      [.literal [37, 46, 51], .literal [195, 169], .literal [37, 45], .literal [195, 169], .literal [37]] ∧
+    Strftime.parse_next_item true [37, 45, 195, 169] = some ([195, 169], .literal [37, 45], []) :=
+  ⟨by decide, by decide, by decide⟩
 
 end Chrono.Props.C15
